@@ -38,6 +38,10 @@ CHECKS["C12"] = ("exploration",
    "Every request of a 31-request pool (valid, invalid, failing at execution incl. several failing deferred values and panicking extension hooks, introspection) is executed and validated under 12 map-iteration-order policies on the same schema and on schemas rebuilt under each policy (enumerated), and after seeded histories of other requests through Do / a shared plan cache / prepared plans (sampled); the marshalled JSON must be byte-identical to the reference response.",
    "Trusted: the map-order seam (tools/maporder rewrites every range-over-map of the library; 0 uncontrolled loops is asserted in the evidence); any permutation is admissible because Go leaves the order unspecified. Not covered: Go runtime nondeterminism other than map order and select.",
    "controlled hash-map iteration order (seeded permutations) + seeded request histories, byte-equality oracle", "§5 C12")
+CHECKS["C06"] = ("exploration",
+   "Every ordered pair of a 72-request near-collision pool (a, b, a) is pushed through a fresh cache with Normalize on and off (enumerated); seeded histories of Get+ExecutePlan, plan re-execution with other variables, Reset and schema replacement run under seeded cache knobs (MaxEntries 1-4/default, tiny MaxQueryBytes, nil cache). After every operation the response must equal graphql.Do of the same request from scratch (including error responses), the entry count must respect the bound, counters must be monotone.",
+   "Trusted: graphql.Do of the same library as the from-scratch reference (a bug that corrupts both paths identically is C01's business); the echo world makes every argument, alias, included sibling and schema id visible in the response. 'The original document is not modified' is not observable through Get(text) and is not claimed.",
+   "seeded operation histories + enumerated request pairs against a from-scratch reference execution", "§5 C06")
 REASONS_PENDING = "claimed in DESIGN.md; the check is still under construction and is therefore not registered yet"
 ALL = ["C%02d" % i for i in range(1, 21)]
 hooks_commit = "0e04175"
